@@ -148,6 +148,11 @@ class StoreRun:
             if self.budget:
                 kw["memory_cache_mb"] = self.budget / MB
             self.be = FilesystemStorageBackend(**kw)
+            # a second spelling of the same directories (through a symbolic link), used by the "reopen" op
+            self.spell = 0
+            self.alt_root = root.rstrip("/") + ".ln"
+            if os.path.islink(self.alt_root):
+                os.unlink(self.alt_root)
         else:
             self.be = MemoryStorageBackend()
 
@@ -225,9 +230,29 @@ class StoreRun:
         self.log.append({"op": list(op), "bad": bad})
         return bad
 
+    def reopen(self):
+        """Continue on a new backend object that reaches the same directories under the other spelling of their path
+        (real path <-> through a symbolic link). The memory cache, if any, starts empty."""
+        from twosigma.memento.storage_filesystem import FilesystemStorageBackend
+
+        if not os.path.islink(self.alt_root):
+            os.symlink(self.root, self.alt_root)
+        self.spell ^= 1
+        base = self.alt_root if self.spell else self.root
+        kw = {"path": os.path.join(base, "d")}
+        if self.mpath:
+            kw["metadata_path"] = os.path.join(base, "m")
+        if self.budget:
+            kw["memory_cache_mb"] = self.budget / MB
+        self.be = FilesystemStorageBackend(**kw)
+
     def _step(self, op):
         be, m = self.be, self.model
         kind = op[0]
+        if kind == "reopen":
+            if self.kind == "fs":
+                self.reopen()
+            return None
         if kind == "memo":
             _, ki, cls, override = op[:4]
             if len(op) > 4:
@@ -608,7 +633,7 @@ class StoreRun:
         real = norm(repr(files)) + norm(repr(cache))
         model = norm(repr(self.model.canon(lambda t: "T%d" % tr[t])))
         held = tuple(sorted(self.mem))
-        return (real, model, held)
+        return (real, model, held, getattr(self, "spell", 0))
 
 
 # ---------------------------------------------------------------------------------------------
@@ -630,6 +655,11 @@ def scratch_store(tag="st"):
 def alphabet(profile, keys, classes, small=False):
     ops = []
     k2 = min(2, len(keys) - 1)  # a second call (of another function where there is one)
+    if profile == "c07p":
+        # partitions written under ONE key override by two calls, read back in between and afterwards (each memento keeps
+        # reading the index and the value objects stored when it was created)
+        return [("memo", 0, "P", OVK), ("memo", k2, "P", OVK), ("memo", k2, "s", OVK), ("memo", 0, "P", None),
+                ("read", 0), ("read", k2), ("fc", 0), ("reopen",)]
     for ki in range(len(keys)):
         for c in classes:
             ops.append(("memo", ki, c, None))
@@ -644,6 +674,7 @@ def alphabet(profile, keys, classes, small=False):
         if profile.startswith("c07"):
             ops.append(("memo", k2, "D", OVK))
             ops.append(("memo", 0, "P", OVK))
+            ops.append(("reopen",))  # the same store under another spelling of its path (through a symbolic link)
             ops.append(("memo_fault", 0, "D"))
             ops.append(("memo_fault", k2, "s"))
             ops.append(("memo_fault", k2, "D", "meta"))  # the data object is written (or re-used), then the memento write fails
